@@ -126,4 +126,35 @@ theorem fault_stops_body (f : Frame) (table : Str) (o : WriteOpts) (ex : Bool) (
     simp only [h1, Bool.false_and, true_and]
     exact ⟨by simpa using h2, h3⟩
 
+private theorem runCalls_fault (calls : List Call) (k start : Nat) (h : k < calls.length) :
+    (runCalls calls (some (start + k)) start).1 =
+      (calls.take k).map (fun c => (c, true)) ++ [(calls[k], false)] := by
+  induction calls generalizing k start with
+  | nil => simp at h
+  | cons c rest ih =>
+    cases k with
+    | zero => simp [runCalls]
+    | succ k =>
+      have hne : start + (k + 1) ≠ start := by omega
+      have e : start + (k + 1) = (start + 1) + k := by omega
+      have hk : k < rest.length := by simpa using h
+      simp only [runCalls, Option.some.injEq, hne, if_false, List.take_succ_cons, List.map_cons,
+        List.cons_append, List.getElem_cons_succ]
+      rw [e, ih k (start + 1) hk]
+
+/-- a fault changes nothing before it: up to call `k` the export issues exactly the statements of the fault-free
+export, each succeeding, then the failing call, then nothing -/
+theorem fault_prefix (f : Frame) (table : Str) (o : WriteOpts) (ex : Bool) (k : Nat)
+    (hk : k < (runBody f table o ex none 0).1.length) :
+    (runBody f table o ex (some k) 0).1 =
+      (runBody f table o ex none 0).1.take k ++ [(((runBody f table o ex none 0).1[k]).1, false)] := by
+  rcases runBody_cases f table o ex with h0 | ⟨calls, good, _, hc⟩
+  · rw [h0] at hk; simp at hk
+  · have hk' := hk
+    rw [hc, runCalls_none] at hk'
+    simp only [List.length_map] at hk'
+    have := runCalls_fault calls k 0 hk'
+    simp only [Nat.zero_add] at this
+    simp only [hc, runCalls_none, this, List.getElem_map, List.map_take]
+
 end Goframe.C12
